@@ -18,7 +18,8 @@ class Prop:
     vo_check = ["theories/Roaming/Check.vo"]
     vo_props = ["theories/Props/C11.vo"]
     k_names = ["cosim(device datagrams with destinations, endpoint of every peer after every step == Roaming.Model.step)",
-               "loopback(real conn.StdNetBind on 127.0.0.1/::1: datagrams of every kind from a stranger socket leave the learnt endpoint and the destination of the next datagrams unchanged, before and after roaming)"]
+               "loopback(real conn.StdNetBind on 127.0.0.1/::1: datagrams of every kind from a stranger socket leave the learnt endpoint and the destination of the next datagrams unchanged, before and after roaming)",
+               "concurrent-initiations(pairs of fresh initiations of one peer in one receive batch, 24 peers x 150 rounds quick / 800 thorough: every initiation the device answered is refused when replayed from another address past the flood gap)"]
     rule = ("scenarios from one PRNG against a real device (sim bind/tun, receive batch 1/4/8/16/128, remote side = ref): valid and "
             "invalid initiations, responses, cookie replies, transport messages and unknown datagrams from changing source addresses "
             "(8 addresses incl. same address/other port and IPv6), both handshake roles, a peer without configured endpoint; replays of "
@@ -59,10 +60,13 @@ class Prop:
         n = (130 if tier == "quick" else 1500) * mult
         shards = 8 if tier == "quick" else 32
         files, cases = self._run_go(["-seed", str(seed), "-n", str(n), "-shards", str(shards), "-out", self.dir,
+                                     "-racerounds", "150" if tier == "quick" else "800",
                                      "-corpus", os.path.join(vlib.ROOT, "corpus", "C11")])
         lb = [c["loopback"] for c in cases if c.get("loopback")]
+        rc = [c["race"] for c in cases if c.get("race")]
         self.extra_coverage = {"loopback_stdnetbind": lb[0] if lb else None,
-                               "discarded_scenarios": sum(1 for c in cases if not c.get("steps") and not c.get("loopback")),
+                               "concurrent_initiations": rc[0] if rc else None,
+                               "discarded_scenarios": sum(1 for c in cases if not c.get("steps") and not c.get("loopback") and not c.get("race")),
                                "retries_slow_or_ambiguous_flood_gap": sum(c.get("slow", 0) for c in cases)}
         return files, cases
 
@@ -76,6 +80,9 @@ class Prop:
             lb = c.get("loopback")
             if lb and lb.get("status") == "violation":
                 res.append({"case": i, "kind": 2, "pos": 0, "loopback": lb.get("detail", "")[:400]})
+            rc = c.get("race")
+            if rc and rc.get("status") == "violation":
+                res.append({"case": i, "kind": 2, "pos": 0, "race": rc.get("detail", "")[:400]})
         return res
 
     def failures(self, outputs, files, cases):
@@ -92,7 +99,7 @@ class Prop:
         d = os.path.join(self.dir, "rerun")
         os.makedirs(d, exist_ok=True)
         inp = os.path.join(d, "in.json")
-        json.dump([{"gen": c.get("gen", ""), "plan": c.get("plan") or [], "batch": c.get("batch", 8), "loopback": c.get("loopback")} for c in cases], open(inp, "w"))
+        json.dump([{"gen": c.get("gen", ""), "plan": c.get("plan") or [], "batch": c.get("batch", 8), "loopback": c.get("loopback"), "race": c.get("race")} for c in cases], open(inp, "w"))
         exe = vlib.build_go("c11")
         rc, o = vlib.sh([exe, "-replay", inp, "-out", d], cwd=vlib.ROOT, timeout=3000)
         if rc != 0:
@@ -116,6 +123,8 @@ class Prop:
     def signature(self, case, f):
         if case.get("loopback") or f.get("loopback"):
             return "loopback-stdnetbind"
+        if case.get("race") or f.get("race"):
+            return "consumed-initiation-answered-again(concurrent-initiations)"
         steps = case.get("steps") or []
         pos = f.get("pos", 0)
         if pos >= len(steps):
@@ -131,12 +140,16 @@ class Prop:
     def nontrivial(self, c):
         if c.get("loopback"):
             return c["loopback"].get("status") == "ok"
+        if c.get("race"):
+            return c["race"].get("status") == "ok"
         steps = c.get("steps") or []
         return any(s.get("moved") for s in steps) and len(steps) >= 4
 
     def sample(self, c):
         if c.get("loopback"):
             return {"gen": c["gen"], "loopback": c["loopback"]}
+        if c.get("race"):
+            return {"gen": c["gen"], "race": c["race"]}
         return {"gen": c.get("gen"), "batch": c.get("batch"),
                 "steps": [{"event": s["event"][:200], "observed": s.get("outs"), "endpoints": s.get("eps")} for s in (c.get("steps") or [])[:6]],
                 "length": len(c.get("steps") or [])}
@@ -152,7 +165,7 @@ def replay(path):
     case = obj.get("input") or obj
     fs = p.run_cases([case])
     r = p.last_rerun[0]
-    print(json.dumps({"failures": fs, "loopback": r.get("loopback"),
+    print(json.dumps({"failures": fs, "loopback": r.get("loopback"), "race": r.get("race"),
                       "observed": [{"event": s["event"], "outs": s.get("outs"), "endpoints": s.get("eps")} for s in (r.get("steps") or [])]})[:6000])
     if any(f["kind"] == 2 for f in fs):
         print("VIOLATION property=C11 replay=%s" % path)
